@@ -138,6 +138,30 @@ def _store_text(bld, st, keep=('self', 'len', 'isinf', 'sum', 'numpy', 'np', 'Tr
     return norm_stmt(node)
 
 
+def rebinding_carries(fi, st):
+    """at `st` in a _decorate_objective the counter cell is rebound: is it the first result of
+    wrap_function(..., start=<previous count>)?  Followed through temporaries and tuple unpacking
+    (self._fcalls, cost = ... / counter, cost = ...; self._fcalls = counter)"""
+    sn = selfname_of(fi)
+    bld = T.Builder()
+    for s0 in stmts_of(fi.node):
+        if s0.lineno >= st.lineno:
+            break
+        if isinstance(s0, ast.Assign) and not guards_of(s0, stop=fi.node) and all(
+                isinstance(x, ast.Name) or (isinstance(x, (ast.Tuple, ast.List)) and all(isinstance(e, ast.Name) for e in x.elts)) for x in s0.targets):
+            bld.exec_stmt(s0)
+    if isinstance(st, ast.Assign):
+        for tg0 in st.targets:
+            bld.assign(tg0, bld.t(st.value))
+    v = T.simp(bld.env.get('%s._fcalls' % sn, ('const', None)))
+    call = v[1] if v[0] == 'sub' and v[2] == T.num(0) else None
+    start = dict(call[3]).get('start') if call and call[0] == 'call' and T.show(call[1]).endswith('wrap_function') else None
+    if start is None and call and call[0] == 'call' and len(call[2]) > 4:
+        start = call[2][4]
+    carries = start in (('sub', ('attr', ('name', sn), '_fcalls'), T.num(0)), ('attr', ('name', sn), 'evaluations'))
+    return carries
+
+
 @rule('C04.b', min_instances=6)
 def who_writes_the_counter(ctx):
     """only the wrapper increments the evaluation counter; every rebinding carries the previous count"""
@@ -177,25 +201,7 @@ def who_writes_the_counter(ctx):
                             fi, st, statement=('if %s: ' % gtxt if gtxt else '') + _store_text(fi.node, st))
                     continue
                 if fi.name == '_decorate_objective':
-                    # the cell bound here is the first result of wrap_function(..., start=<previous count>): followed through
-                    # temporaries and tuple unpacking (self._fcalls, cost = ... / counter, cost = ...; self._fcalls = counter)
-                    sn = selfname_of(fi)
-                    bld = T.Builder()
-                    for s0 in stmts_of(fi.node):
-                        if s0.lineno >= st.lineno:
-                            break
-                        if isinstance(s0, ast.Assign) and not guards_of(s0, stop=fi.node) and all(
-                                isinstance(x, ast.Name) or (isinstance(x, (ast.Tuple, ast.List)) and all(isinstance(e, ast.Name) for e in x.elts)) for x in s0.targets):
-                            bld.exec_stmt(s0)
-                    if isinstance(st, ast.Assign):
-                        for tg0 in st.targets:
-                            bld.assign(tg0, bld.t(st.value))
-                    v = T.simp(bld.env.get('%s._fcalls' % sn, ('const', None)))
-                    call = v[1] if v[0] == 'sub' and v[2] == T.num(0) else None
-                    start = dict(call[3]).get('start') if call and call[0] == 'call' and T.show(call[1]).endswith('wrap_function') else None
-                    if start is None and call and call[0] == 'call' and len(call[2]) > 4:
-                        start = call[2][4]
-                    carries = start in (('sub', ('attr', ('name', sn), '_fcalls'), T.num(0)), ('attr', ('name', sn), 'evaluations'))
+                    carries = rebinding_carries(fi, st)
                     ctx.check(carries, construct, 'rebinding starts from the previous count',
                               're-decorating the objective restarts the evaluation counter (no start=<previous count>)', fi, st)
                 elif fi.name == '__update_allSolvers':
@@ -557,3 +563,42 @@ def inputs_are_processed_before_the_objective_is_bound(ctx):
         ctx.check(bad is None, '%s._Step#inputs-before-objective' % f.qualname.split('.')[0], 'self._process_inputs(kwds) precedes self._bootstrap_objective(...) on every path',
                   '%s binds the decorated objective before it has processed its keyword settings: an EvaluationMonitor / constraints / penalty given to Step is not in force for this iteration'
                   % f.qualname, f, bad[1] if bad else f.node)
+
+
+@rule('C04.l', min_instances=5)
+def monitor_swap_keeps_the_generation_count(ctx):
+    """abstract simulation of the log protocol under reconfiguration: in every bookkeeping state a run can reach (log length, energy history synchronised or decoupled), installing a new (initially empty) generation monitor with SetGenerationMonitor leaves `generations` unchanged, and so does the step that follows (a solver whose last iteration is still unlogged must log it before its history is resynchronised with the monitor)"""
+    for key, cls in _step_classes(ctx):
+        sm = stepsim.StepModel(ctx.model, cls)
+        trans, seen = sm.explore()
+        m = ctx.model.lookup_method(cls, 'SetGenerationMonitor')
+        ctx.need(m is not None, 'no SetGenerationMonitor on %s' % cls.name)
+        ctx.touch(m)
+        agg = {}
+        for s in sorted(seen, key=repr):
+            if s[0] == 0:
+                continue
+            res = stepsim.monitor_swap(ctx.model, cls, s, sm.source)
+            ctx.need(res, '%s: SetGenerationMonitor has no feasible path from state %s' % (cls.name, s))
+            ctx.stats['paths_enumerated'] += len(res)
+            for s2, trail in res:
+                dg = stepsim.gens(s2, sm.source) - stepsim.gens(s, sm.source)
+                sclass = 'SYNCED' if s[1] is None else 'DECOUPLED'
+                agg.setdefault((sclass, dg == 0, dg), []).append((s, s2, trail))
+        ctx.need(agg, '%s: no reachable bookkeeping state' % cls.name)
+        for (sclass, good, dg), items in sorted(agg.items(), key=repr):
+            s, s2, trail = items[0]
+            construct = '%s.SetGenerationMonitor@%s' % (cls.name, sclass)
+            if good:
+                ctx.ok(construct, '%d transitions keep generations (e.g. %s -> %s)' % (len(items), s, s2), m, m.node)
+            else:
+                ctx.bad(construct, 'installing a generation monitor in bookkeeping state %s (log length %d, energy history %s) changes generations by %d: %s'
+                        % (sclass, s[0], 'synced' if s[1] is None else 'decoupled: the last iteration is not yet in the log', dg, ' | '.join(trail)[:300]),
+                        m, m.node, statement='%s %s: delta generations = %d' % (cls.name, sclass, dg))
+
+
+@rule('C04.m', min_instances=1)
+def a_stopped_step_loop_is_finalized(ctx):
+    """the step monitor of a stopped run ends in the reported result however the run is driven: Step itself calls Finalize() when the step it took ended the run (a solver that logs its latest iteration lazily - Powell - writes that record only there, so a `while not solver.Step()` loop must not depend on Solve for it; shared with C05.j)"""
+    from .c05 import finalize_on_stop
+    finalize_on_stop(ctx)
